@@ -1417,6 +1417,8 @@ class Path:
             return self.ev(f.node.body, fr)
         if isinstance(f, SObj):
             return self.call_method(f, '__call__', args, kwargs)
+        if isinstance(f, Opaque) and f.tag.endswith('.getrandbits') and self.ex.draw_fn is not None:
+            return self.ex.draw_fn(args[0])
         raise Unsupported(f'call of {f!r}')
 
     def call_method(self, obj: SObj, name: str, args, kwargs):
@@ -1558,6 +1560,10 @@ class Path:
             c = self.ex.contract_for(info)
             if c is not None:
                 return self.ex.call_contract(self, c, info, args, kwargs, is_init)
+            if info.cls is None and info.name in self.ex.opaque_specs and not kwargs:
+                r = self.ex.call_opaque(self, info, args)
+                if r is not None:
+                    return r
         self.depth += 1
         if self.depth > self.ex.max_depth:
             raise Unsupported(f'call depth exceeded at {info.qualname}')
